@@ -12,6 +12,36 @@ CHECKS = {
         note="Assumes pure node functions; values over a 2-letter input alphabet (interned, injective); restore pairs are strided over current states when a program has more than 48 reachable states (reported as a cap).",
         ref="3/C01",
     ),
+    "C05": dict(
+        technique="exhaustive product over small input alphabets on the real mh_step and kernels, uniform draw owned by a scripted PRNG seam plus a real key whose draw is exactly 0.0; plain-Python MH rule as oracle",
+        text="Full product of current/proposed log-density (finite, underflowing, +-inf, NaN), log-correction (finite, +-inf, NaN) and uniform draw {0, 2^-24, 0.3, 1-2^-24} on the real mh_step with a log-density-carrying DictInterface, eager (scripted uniform), jit and jit(vmap) (draw as traced argument), plus the un-patched real key PRNGKey(14620119) whose draw is exactly 0.0. The same product runs through MHKernel.transition (both branches); lattices on a Liesel model with a hard support boundary and on RW/IWLS kernels over a target with -inf and NaN regions. Oracle: the stated rule, leaf-by-leaf bit equality of the returned state with the input or update_state(proposal, state), moved flag = what happened.",
+        note="Alphabet values are float32-exact; interior alpha tolerance 5e-6/5e-5, everything else exact; decision judged against the reported alpha; u == alpha in (0,1) may go either way. update_state and jit/vmap semantics trusted.",
+        ref="3/C05",
+    ),
+    "C12": dict(
+        technique="exhaustive product of key permutations x shapes x diag/dense x history layouts on kernel.tune(), plus a product of real Engine runs; numpy float64 reference in ravel_pytree order",
+        text="kernel.tune() of NUTS and HMC is executed for every permutation of 2-3 position keys, leaf shape assignment, diagonal/dense mode, history-dict layout (listed, sorted, reversed, with a foreign key) and SLOW/FAST epoch on synthetic histories with pairwise distinct variances and non-zero covariances; real Engine runs (store_kernel_states) cover key orders x kernels x diag/dense x co-kernel (none, RW without history, second HMC) x slow epochs (one, two identical, two different) x warm-up thinning. After every slow epoch the stored inverse mass matrix must equal the regularised variance/covariance of that epoch's stored history of the kernel's own keys in ravel_pytree order.",
+        note="jax.flatten_util.ravel_pytree defines 'flat coordinate i'; tolerance 1e-4 + 2e-4|ref|; quick runs a covering subset of the engine product (thorough: full product, 288 engines).",
+        ref="3/C12",
+    ),
+    "C15": dict(
+        technique="exhaustive enumeration of graph programs x build variants x round-trip operation sequences (depth-bounded) on real models with a never-round-tripped twin as differential oracle; enumerated invalid graphs",
+        text="For every G-cache program (<=3 items quick, <=4 thorough, plus extras with groups, seeded and unnamed nodes) the model is built in six ways (all objects, sinks only, reversed, twice, copy=True, Model(grow=True), repeated copy build) and checked for completeness, unique names, outputs = inverse of inputs, reference edges and topological evaluation order; 17 invalid graphs (duplicate names, reserved names, node cycles, simulation cycles, shared nodes) must be rejected without harming an existing model. All operation sequences up to the tier's depth over {assign, auto-update off, pop+rebuild, copy+rebuild, deepcopy, save/load, every structural mutator on every node/var, set_seed} run on the real model next to a twin that never round-trips; states must agree after every step, copied-from originals must stay untouched and share no objects, every mutator must raise and change nothing.",
+        note="Depth 3 (quick: 2 for 3-item programs); values content-based so they compare across copies; group membership/role/info are not counted as structure. One open finding (seed nodes reset to the default key by pop/copy + rebuild) is listed in known_findings.txt with its exact history.",
+        ref="3/C15",
+    ),
+    "C16": dict(
+        technique="exhaustive product enumeration of schedules / argument tuples / append-next words on the real EpochManager, stan_epochs and EngineBuilder; plain-Python validity predicate and closed-form window arithmetic as oracle",
+        text="Every sequence of epoch configs over types x durations 0..4 x thinnings 0..3 (length <=3 complete, length 4 with the valid initial epoch first; thorough: wider domain, length 5) is given to the real EpochManager through the constructor and through incremental append (rejected appends kept in the history) and compared with the validity predicate; every accepted manager and every {append, next} interleaving of every valid schedule is checked against consecutive indices and prefix-sum start times. stan_epochs runs on the full product of its argument grid (6.6M tuples quick) against the documented raise conditions and the closed-form fast / doubling-slow / fast / posterior pattern. EngineBuilder chunk length is checked on ~8k builds, a few engines sampled to the end.",
+        note="Empty schedule and base_duration <= 0 (non-terminating) are outside the admissible domain; 'divides every duration' means every epoch after the initial one; a chunk that divides but is not the gcd is not a violation.",
+        ref="3/C16",
+    ),
+    "C17": dict(
+        technique="exhaustive product of hierarchy structures x skip sets x naming styles x auto-update x stale/fresh state x shapes x seeds on the real Model.simulate; Deterministic children make 'which ancestor value was seen' an exact equality",
+        text="Chains of depth 2 and 3 (and a diamond) where each edge is one of six ways a child can depend on its parent (direct, cached Calc, TransientCalc, weak Var, two chained Calcs, keyword input), value shapes ()/(3,)/(2,3) with scalar and vector parents, every subset of variables skipped (named by variable, dist node or value proxy), auto-update on/off, model fresh or stale beforehand, several seeds. Oracle per execution: recording distributions give the parameters each draw was initialised with, which must equal the reference evaluation at the NEW ancestor values; shapes preserved; skipped variables bit-identical; same seed => same result in a fresh model and under both auto-update settings; after update() the model is coherent (no outdated node, calcs = f(inputs), log_prob recomputed).",
+        note="TFP's Normal/Deterministic samplers trusted; link functions exact in float32; distribution nodes without a variable are never simulated (documented) and are outside the space.",
+        ref="3/C17",
+    ),
 }
 
 PENDING_REASON = "check not built yet in this session (design in DESIGN.md section 3); not claimed until it exists and has caught a seeded defect"
